@@ -183,6 +183,10 @@ type Entry struct {
 	YearKeyword string // "Y" or "year"
 	CommentMark string // ";" or "#" for comment-line entries
 	Trail       string
+	// FmtComment: a trailing comment on the "format" sub-line of a commodity
+	// directive; SubNote: a further sub-line "note <text>" below it
+	FmtComment string
+	SubNote    string
 }
 
 type Journal struct {
@@ -498,7 +502,17 @@ func (r *renderer) entryText(e *Entry) {
 		r.formatSpan(e)
 		// the sub-directive line is one free-text lexeme
 		r.spanAt("text", "format", "", b, "format "+e.Format)
+		if e.FmtComment != "" {
+			r.w(" ")
+			c := Comment{Text: e.FmtComment}
+			r.comment(&c, "line")
+		}
 		r.nl()
+		if e.SubNote != "" {
+			r.w("    ")
+			r.mark("text", "subdirective", "", "note "+e.SubNote)
+			r.nl()
+		}
 	case EntryInclude:
 		r.mark("directive", "directive", "include", "include")
 		r.w(" ")
